@@ -3,12 +3,43 @@ C14 — Tie: what the extractor read from core/stores/sqlx/{tx,sqlconn}.go and c
 *now* equals what the model was written against.  A failing obligation = the code moved away from the model.
 -/
 import GoZero.Extracted.C14
-import GoZero.C14.Model
+import GoZero.C14.TieSem
 namespace GoZero.C14.Tie
-open GoZero.C14
+open GoZero.C14 GoZero.C14.TieSem
 open GoZero.Extracted.C14
 
 theorem extraction_clean : extractionErrors = [] := by decide
+
+/-- **Semantic tie of the deferred decision.**  The control-flow term read from `transactOnConn` *now*
+(begin guard, deferred closure with `recover()`, the three branches with their `fmt.Errorf` verbs, `tx.Commit()`,
+`return fn(ctx, tx)`), run under the semantics of `TieSem`, gives exactly the model's driver-call log, body
+runs and returned error — for every driver fault plan and every body (any length, any outcome); it is never
+stuck and lets no panic escape.  Swapping Commit/Rollback, inverting a condition, dropping the begin guard,
+moving the body call, turning `%w` into `%s` (or back) all break this theorem. -/
+theorem tie_transactOnConn_sem (f : Faults) (b : Body) :
+    outcome (run ⟨f, (runBody b).1, (runBody b).2⟩ transactOnConnBlk {}) =
+      some ((transactOnConn f b).log, (transactOnConn f b).runs, (transactOnConn f b).ret) := by
+  unfold transactOnConn
+  generalize (runBody b).1 = evs
+  generalize (runBody b).2 = out
+  obtain ⟨bg, cm, rb⟩ := f
+  cases bg <;> cases cm <;> cases rb <;> cases out <;>
+    first
+    | rfl
+    | simp [transactOnConnBlk, run, outcome, assign, doInit, evalCond, doRet, fmtErr, argVal, Err.of]
+
+/-- the decision is made on the *named* result `err` (the deferred closure assigns to it) -/
+theorem tie_namedResult : transactOnConnBlkResults = "err" ∧ transactBlkResults = "err" := by decide
+
+/-- `transact`: the connection provider first; on failure `onError` and the error, nothing else;
+otherwise exactly `transactOnConn` with the same `b` and `fn`. -/
+theorem tie_transactBlk : transactBlk =
+    (.assignErr (.call "db.connProv()") <|
+     .ifc "" "err != nil" (.other "db.onError(ctx, err)" <| .ret (.other "err")) .done <|
+     .ret (.call "transactOnConn(ctx, conn, b, fn)")) := by decide
+
+/-- the standard sentinels `acceptable` accepts: exactly `Cls.noRows`, `Cls.txDone`, `Cls.canceled` -/
+theorem tie_acceptSentinels : acceptSentinels = ["sql.ErrNoRows", "sql.ErrTxDone", "context.Canceled"] := by decide
 
 /-- `transactOnConn`: begin guard (no body, no deferred decision when Begin fails), then the deferred
 decision  recover → Rollback | err ≠ nil → Rollback | else Commit, then the body. -/
